@@ -115,6 +115,23 @@ static void run_repro(Json& js, vh::Rng& rng, int smax, int reps) {
             }
         }
     }
+    // histories of one kind only: the draws between two rng(s) calls with the same seed all come from a single entry point
+    // (or there are none at all); whatever that entry point is, the second rng(s) restarts the stream
+    {
+        static const long PAR[9][3] = {{0, 0, 5}, {0, 0, 5}, {-4, 9, 5}, {0, 0, 1}, {0, 0, 1}, {7, 0, 1}, {10, 0, 6}, {10, 0, 6}, {-1, 1, 8}};
+        for (int k = 0; k <= 8; ++k) {
+            const int s = 100 + k, j = (k + 1 + (int)rng.range(0, 7)) % 9;
+            auto seed = [&] { dsplib::rng(s); js.begin("Seed").num("tid", 0).num("seed", s).end(); };
+            auto call = [&](int q) { draw(js, 0, q, PAR[q][0], PAR[q][1], (int)PAR[q][2]); };
+            seed(); call(k); call(k);
+            seed(); call(k); call(k);     // same seed, only kind k in between
+            seed(); seed(); call(j); call(k);   // nothing in between
+            dsplib::rng(9000 + k); js.begin("Seed").num("tid", 0).num("seed", 9000 + k).end();
+            random_call(js, rng, 0);
+            seed(); call(j); call(k);
+            seed(); call(k); seed(); call(j); call(k);
+        }
+    }
     // what a thread that never seeds observes does not depend on what other threads have seeded: an unseeded reference thread
     // first, then the main thread seeds with something else, then more unseeded threads - all must draw the same values
     {
@@ -323,6 +340,64 @@ static void run_meas(Json& js, vh::Rng& rng, long budget, int maxlen) {
     }
 }
 
+// the same family sampled too slowly for its harmonics: component k sits at k*f0 folded into the first Nyquist zone (some of
+// them several zones up); thd(x, nharm, aliased = true) finds them there
+static void run_meas_aliased(Json& js, vh::Rng& rng, long budget, int maxlen) {
+    for (long t = 0; t < budget; ++t) {
+        const int n = 1 << (int)rng.range(12, (int)std::log2(maxlen));
+        const int nfft = n;
+        const int nh = (int)rng.range(2, 5);
+        auto fold = [](double f) { f = std::fmod(f, 1.0); return f > 0.5 ? 1.0 - f : f; };
+        double f0 = 0;
+        bool found = false;
+        for (int tries = 0; tries < 5000 && !found; ++tries) {
+            f0 = std::round((0.26 + 0.23 * rng.unif()) * nfft) / nfft;   // on-bin, harmonics reach beyond fs and 2 fs
+            if (t % 2 == 0) {
+                f0 = std::round((0.40 + 0.09 * rng.unif()) * nfft) / nfft;
+            }
+            std::vector<double> fs;
+            for (int k = 1; k <= nh + 1; ++k) {
+                fs.push_back(fold(k * f0));
+            }
+            found = true;
+            for (size_t a = 0; a < fs.size() && found; ++a) {
+                found = fs[a] * nfft > 110 && fs[a] * nfft < nfft / 2.0 - 110;
+                for (size_t b = 0; b < a && found; ++b) {
+                    found = std::fabs(fs[a] - fs[b]) * nfft > 220;
+                }
+            }
+        }
+        if (!found) {
+            continue;
+        }
+        const double A = std::pow(10.0, -2 + 4 * rng.unif());
+        std::vector<double> hdb(nh), hph(nh);
+        LD hpow = 0;
+        for (int h = 0; h < nh; ++h) {
+            hdb[h] = -(10 + 30 * rng.unif());
+            hph[h] = 6.28 * rng.unif();
+            hpow += powl(10.0L, (LD)hdb[h] / 10);
+        }
+        arr_real x(n);
+        const double ph0 = 6.28 * rng.unif();
+        for (int i = 0; i < n; ++i) {
+            LD v = sinl(2 * PI_L * f0 * i + ph0);
+            for (int h = 0; h < nh; ++h) {
+                v += powl(10.0L, (LD)hdb[h] / 20) * sinl(2 * PI_L * f0 * (h + 2) * i + hph[h]);
+            }
+            x[i] = (double)(A * v);
+        }
+        const auto r = thd(x, nh + 1, true);
+        const double want_thd = (double)(10 * log10l(hpow));
+        js.begin("Resid").str("clause", "C19.thd-aliased").num("n", n).num("nh", nh).num("err_milli", milli(std::fabs(r.value - want_thd), 0.1)).end();
+        double ferr = 0;
+        for (int h = 0; h <= nh && h < r.harmfreq.size(); ++h) {
+            ferr = std::max(ferr, std::fabs(r.harmfreq[h] - fold(f0 * (h + 1))) * nfft);
+        }
+        js.begin("Resid").str("clause", "C19.harm-freq-aliased").num("n", n).num("nh", nh).num("err_milli", milli(ferr, 0.1)).end();
+    }
+}
+
 int main(int argc, char** argv) {
     const std::string mode = vh::arg(argc, argv, "--mode", "repro");
     const long seed = std::atol(vh::arg(argc, argv, "--seed", "1"));
@@ -340,6 +415,7 @@ int main(int argc, char** argv) {
         run_awgn(js, rng, budget, maxlen);
     } else if (mode == "meas") {
         run_meas(js, rng, budget, maxlen);
+        run_meas_aliased(js, rng, budget, maxlen);
     } else {
         return 3;
     }
